@@ -164,6 +164,14 @@ impl ChannelQueue {
     }
   }
 
+  /// Remove a waiter from the waiter lists of this queue.
+  /// A fiber that was resumed by another route no longer
+  /// waits on this channel
+  pub fn remove_waiter(&mut self, waiter: Ref<ChannelWaiter>) {
+    self.send_waiters.retain(|w| *w != waiter);
+    self.receive_waiters.retain(|w| *w != waiter);
+  }
+
   /// Attempt to get a runnable waiter
   /// from this channel
   pub fn runnable_waiter(&mut self) -> Option<Ref<ChannelWaiter>> {
